@@ -303,6 +303,24 @@ def rule_overflow(rep, idx):
             want = x_binop(op, x, y)
             rep.add('R3', 'fold %s:%d,%d' % (op, x, y), isinstance(got, IV) and got.concrete() and got.lo == want, pos(f.node),
                     '(%d %s %d) folds to %r, wrapped result is %d' % (x, op, y, got, want))
+    # comparisons are folded by comparing, never through a difference: operands that are more than INT_MAX apart
+    for op in ('LS', 'LE', 'GR', 'GE', 'EQ', 'NE'):
+        for x, y in ((2147483647, -1), (-2147483648, 1), (2147483647, -2147483648), (-2147483648, 2147483647), (-2, 2147483647)):
+            X = XModel(idx)
+            try:
+                node = X.const_prop(X.binop(op, X.num(x), X.num(y)))
+            except (NeedSplit, Thrown) as e:
+                rep.undecided('R3', 'fold %s:%d,%d' % (op, x, y), 'not interpreted: %s' % e, pos(f.node))
+                continue
+            got = node.fields.get('constValue')
+            if got is None:
+                continue          # not folded at all (rewritten instead): nothing to overflow
+            want = x_binop(op, x, y)
+            ub = [u for u in X.I.ub if u[0].startswith('signed-overflow')]
+            ok = not ub and isinstance(got, IV) and got.concrete() and (got.lo != 0) == (want != 0)
+            rep.add('R3', 'fold %s:%d,%d' % (op, x, y), ok, pos(f.node) + ' xcmp::ConstProp::visitPost(BinaryOpExpr&)',
+                    ('(%d %s %d) is folded through signed arithmetic that overflows (undefined behaviour): %s' % (x, op, y, ub)) if ub else
+                    '(%d %s %d) folds to %r, X gives %d' % (x, op, y, got, want), nontrivial=False)
     fu = idx.func('xcmp::ConstProp::visitPost', 'UnaryOpExpr')
     X = XModel(idx)
     a = X.num(full())
